@@ -238,10 +238,14 @@ def r2(ctx, R):
     if not ws or any(not q.dominated(oi, ws, t_) for t_ in tests):
         R.bad(oi, oi.node, "a re-derived reference keeps the mode of a base it no longer derives from", stmt="self.refmode = bases[0].refmode")
     ui = ctx.func("UserSpaceImpl.on_inherit")
-    R.inst("derived reference takes the first definer's mode")
+    R.inst("a freshly created derived reference is re-derived at once (mode and value from the first definer)")
     cs = [c for c in q.calls(ui, name="ReferenceImpl")]
-    if not cs or norm(kw(cs[0], "refmode") or ast.Constant(0)) != "bs[0].refmode":
-        R.bad(ui, ui.node, "a derived reference does not inherit the mode of the first defining base", stmt="refmode=bs[0].refmode")
+    oi_ = [c for c in q.calls(ui, name="on_inherit") if norm(c.func.value) == "selfdict[name]"]
+    if not cs or not oi_ or enclosing_for(ui, cs[0]) is not enclosing_for(ui, oi_[0]) or \
+            not q.path_between(ui, cs[0], oi_[0]) or \
+            q.guards_of(ui, oi_[0]) != {("selfdict[name].is_derived()", "T")}:
+        R.bad(ui, ui.node, "a derived reference is created without taking mode and value from its first definer",
+              stmt="create then on_inherit")
     enc = ctx.func("serializer_6:InterfaceRefEncoder.encode")
     R.inst("writer: (\"Interface\", idtuple, target.refmode)")
     okw = False
@@ -342,4 +346,14 @@ def r3(ctx, R):
                 if '"."' not in ast.unparse(x).replace("'", '"'):
                     R.bad(f, x, "dotted ids are compared by plain string prefix: 'S' matches 'S2.x' - an object of a "
                                 "sibling space with a common name prefix is taken to be inside the tree")
+    for f in ctx.repo.all_funcs(modules=["modelx.core.space", "modelx.core.model"]):
+        for c in q.calls(f, name=("startswith", "endswith")):
+            r_ = call_recv(c) or ""
+            if r_ in ("impl", "node", "idstr", "basevalue", "subspace", "basespace") or r_.endswith("idstr"):
+                n += 1
+                R.inst("%s: prefix test `%s`" % (f.short, norm(c)))
+                a0 = c.args[0] if c.args else None
+                if a0 is None or '"."' not in ast.unparse(a0).replace("'", '"'):
+                    R.bad(f, c, "dotted ids are compared by plain string prefix: 'S' matches 'S2.x' - an object of a sibling "
+                                "space with a common name prefix is taken to be inside the tree")
     R.need(n >= 2, "expected >=2 id-prefix comparisons, found %d" % n)
